@@ -26,7 +26,7 @@ for d in sorted(glob.glob('/verif/seeded/C*/')):
         else:
             parts.append(f"{prop}: —")
     dagger = ' †' if m.get('missed_at_first_run') else ''
-    caught = ', '.join(parts)
+    caught = m.get('table_note') or ', '.join(parts)
     rows.append("| %s%s | `%s` | %s |" % (ID, dagger, where, caught))
 t = open('/verif/DESIGN.md').read()
 b, e = '<!-- seeded-table-begin -->', '<!-- seeded-table-end -->'
